@@ -63,6 +63,12 @@ structure FS (κ : Type) where
   dirs : List (κ × List (Entry κ))
   inJail : κ → Bool
   hasToml : κ → Bool
+  /-- some directory strictly between the scan root and this one (a proper ancestor of its resolved path) has a
+  `snooty.toml`: the directory lies inside a nested project without being its root -/
+  inNested : κ → Bool := fun _ => false
+
+/-- a directory the walk must not enter: a nested project, or (reached through a link) a directory inside one -/
+def FS.pruned {κ : Type} (fs : FS κ) (k : κ) : Bool := fs.hasToml k || fs.inNested k
 
 abbrev Path := List String
 
@@ -125,7 +131,7 @@ def step (fs : FS κ) (p : Path) (c : κ) (st : St κ) : Except Err (List (Path 
   else
     let dset := mkDict (dirPairs es)
     let diags := addDiags fs.hasToml dset st.diags
-    let kept := dset.filter fun kd => decide (kd.1 ∉ st.seen) && fs.inJail kd.1 && !fs.hasToml kd.1
+    let kept := dset.filter fun kd => decide (kd.1 ∉ st.seen) && fs.inJail kd.1 && !fs.pruned kd.1
     let seen := st.seen ++ (dset.map (·.1)).filter (fun k => decide (k ∉ st.seen))
     .ok (kept.map (fun kd => (p ++ [kd.2], kd.1)),
               { seen := seen, out := st.out ++ yields fs.inJail p es, diags := diags, scans := st.scans ++ [c] })
@@ -162,6 +168,6 @@ directory without `snooty.toml`. The scan root itself is not examined (`get_file
 inductive Clean (fs : FS κ) (root : κ) : Path → κ → Prop where
   | root : Clean fs root [] root
   | step {p : Path} {b k : κ} {e : Entry κ} : Clean fs root p b → e ∈ fs.entries b → e.kind = .dir k →
-      fs.inJail k = true → fs.hasToml k = false → Clean fs root (p ++ [e.name]) k
+      fs.inJail k = true → fs.pruned k = false → Clean fs root (p ++ [e.name]) k
 
 end SnootyVerif.Walk
